@@ -1,5 +1,7 @@
 SPECIFICATION Spec
 INVARIANT LawsOnce
 INVARIANT FileLaws
+INVARIANT ReqLawsHold
 INVARIANT Emit
+INVARIANT EmitReq
 CHECK_DEADLOCK FALSE
